@@ -80,6 +80,14 @@ def ground_axioms(formulas, depth=1):
             ax.append(f(a, b) == f(b, a))
             bits = z3.And(a >= 0, a <= 1, b >= 0, b <= 1)
             if nm == 'band':
+                # x & (x - 1) == 0  <=>  x is a power of two   (x > 0)      [lean/PyInt.lean]
+                for x, y in ((a, b), (b, a)):
+                    if z3.is_true(z3.simplify(y == x - 1)):
+                        ispow = x == pow2(bitlen(x) - 1)
+                        ax.append(z3.Implies(x > 0, (e == 0) == ispow))
+                        ax.append(z3.Implies(x > 0, z3.And(bitlen(x) >= 1, pow2(bitlen(x) - 1) <= x,
+                                                           x < pow2(bitlen(x)))))
+                        ax.append(pow2(bitlen(x) - 1) >= 1)
                 ax.append(z3.Implies(bits, e == z3.If(z3.And(a == 1, b == 1), 1, 0)))
                 ax.append(z3.Implies(z3.And(a >= 0, b >= 0), z3.And(e >= 0, e <= a, e <= b)))
                 ax.append(z3.Implies(b == 0, e == 0))
